@@ -397,6 +397,24 @@ def readpath(ctx, pid):
                         ok = True
                     if not ok:
                         probs.append((f, ev.node, "the child of an extension / kv node is fetched before (or without) establishing that the key continues along its path: a missing node off the requested path would be reported"))
+    # the lone-child read of _normalize_branch_node: only when the branch really collapses onto that
+    # child, i.e. after the "two or more items" and the "own value present" exits
+    nf = H(ctx, "_normalize_branch_node")
+    ninit = _init_state(ctx, nf)
+    nnode = ("p", "node")
+    for p, st in pq.states_init(ctx, nf, ninit):
+        for ev in st.events:
+            if ev.k == "call" and isinstance(ev.node, ast.Call) and any(t.kind == "def" and t.func is gn for t in ctx.R.resolve_call(ev.node, nf, count=False)):
+                n_reads += 1
+                val_empty = False
+                for t, pol, n_ in st.log:
+                    if n_.lineno > ev.node.lineno:
+                        continue
+                    tt, pp = truth_norm(t, pol)
+                    if tt in (("sub", nnode, C(-1)), ("sub", nnode, C(16))) and pp is False:
+                        val_empty = True
+                if not val_empty:
+                    probs.append((nf, ev.node, "_normalize_branch_node fetches the remaining child before (or without) establishing that the branch's own value slot is empty: with a value present the branch becomes a leaf and the child is not needed, so a missing node off the path would be reported"))
     c = "reads-on-path:HexaryTrie"
     if probs:
         f, node, why = probs[0]
